@@ -1,7 +1,7 @@
 (* Props/C14.v — Shape compression is lossless to 5e-8 and never ambiguous.
    Only statements, each closed by [exact] of a lemma from Proofs/, with Print Assumptions. *)
 From Coq Require Import ZArith QArith Qabs List Bool Arith.
-From PV Require Import Base.QUtil Gen.GenShape Model.Shape Proofs.ShapeProofs.
+From PV Require Import Base.QUtil Gen.GenShape Model.Shape Proofs.ShapeProofs Gen.GenTimeShape Model.TimeShape Proofs.TimeShapeProofs.
 Import ListNotations.
 Open Scope Q_scope.
 
@@ -45,3 +45,34 @@ Example C14_collision_example :
   pack [0; 0; 0; 0; 5; 5; 2; 2; 2]%Z = [qv 0; qv 0; cnt 4; qv 5; qv 5; cnt 2; qv 2; qv 2; cnt 3] /\
   unpack_go (pack [0; 0; 30000000; 7]%Z) 0 = Some (map qv [0; 0; 30000000; 7]%Z).
 Proof. split; [reflexivity|apply unpack_pack]. Qed.
+
+(* ---- time points: "regular" (no time shape stored) or explicit -- never ambiguous --------------------------- *)
+(* The decision of register_grad_event (tolerance read from block.py into Gen/GenTimeShape.v) and the two decoding
+   expressions of get_block.  A time vector with ANY point on the gradient raster (the corner times of an extended
+   trapezoid) is never taken for a raster-sampled waveform, whatever the other points are ... *)
+Theorem C14_on_raster_point_never_regular : forall raster tt i n,
+  0 < raster -> nth_error tt i = Some (inject_Z n * raster) -> tt_regular raster tt = false.
+Proof. exact any_on_raster_point_not_regular. Qed.
+Print Assumptions C14_on_raster_point_never_regular.
+
+(* ... raster-centred samples always are, for every raster and length ... *)
+Theorem C14_raster_centres_always_regular : forall raster n,
+  0 < raster -> tt_regular raster (centres_from raster 0 n) = true.
+Proof. exact raster_centres_always_regular. Qed.
+Print Assumptions C14_raster_centres_always_regular.
+
+(* ... an explicit time shape gives back exactly the time points handed over (the stored vector itself goes through
+   the codec of the theorems above), and a vector judged regular decodes to within tolerance x raster of them. *)
+Theorem C14_explicit_time_shape_roundtrip : forall raster tt u,
+  0 < raster -> stored_time_shape raster tt = Some u ->
+  Forall2 Qeq (decoded_tt raster (length tt) (Some u)) tt.
+Proof. exact explicit_roundtrip. Qed.
+Print Assumptions C14_explicit_time_shape_roundtrip.
+
+Theorem C14_regular_time_points_close : forall raster tt,
+  0 < raster -> stored_time_shape raster tt = None ->
+  Forall2 (fun d t => Qabs (d - t) < tt_tol * raster) (decoded_tt raster (length tt) None) tt.
+Proof. exact regular_decodes_close. Qed.
+Print Assumptions C14_regular_time_points_close.
+
+Example C14_time_shape_example := ts_example.
